@@ -9,7 +9,7 @@ hooks = subprocess.run(['git', '-C', '/repo', 'log', '--format=%H %s'], capture_
 hook_commits = [l.split()[0] for l in hooks if l.split(' ', 1)[1].startswith('verif hooks:')]
 m = {
  "version": 1,
- "setup_cmd": "sim/build.sh plain >/dev/null && sim/build.sh asan >/dev/null && sim/build.sh long >/dev/null && sim/build.sh vblas >/dev/null && sim/build.sh omp >/dev/null",
+ "setup_cmd": "sim/build.sh plain >/dev/null && sim/build.sh asan >/dev/null && sim/build.sh long >/dev/null && sim/build.sh vblas >/dev/null && sim/build.sh omp >/dev/null && sim/build.sh lasan >/dev/null",
  "hooks": {
   "guard": "SLU_MT_VERIF",
   "enable": "sim/build.sh compiles /repo/SRC/*.c (except sp_ienv.c) and /repo/CBLAS/*.c from the working tree with -DSLU_MT_VERIF -D__PTHREAD -DAdd_ (flavour omp: -D__OPENMP -fopenmp instead of -D__PTHREAD) and links them with the simulator using -Wl,--wrap=pthread_*,malloc,calloc,realloc,free,exit (flavour omp: the simulator also defines the GOMP_*/omp_* entry points, libgomp is not linked)",
